@@ -125,6 +125,11 @@ def bounded(tier, seed):
             if bad and len([v for v in viol if bool(v.get("known")) == is_known]) < (2 if is_known else 5):
                 viol.append(dict(ob=f"bounded/eigenvectors[{n},{kind},{dtn},{method}]", func="matrix_eigenvectors", input=dict(n=n, kind=kind, dtype=dtn, method=method), text=bad, detail=bad,
                                  replay=dict(kind="eigvec_native", n=n, spectrum=kind, dt=dtn, method=method, seed=seed * 100 + k), known="F12" if is_known else None))
+    bad = mf.native_qr_rule()
+    evals += 1
+    distinct.add(("qr-stopping-rule",))
+    if bad:
+        viol.append(dict(ob="bounded/qr-stopping-rule", func="_compute_orthogonal_iterations", input=dict(budgets=[2, 3, 5]), text=bad, detail=bad, replay=dict(kind="eigvec")))
     return dict(evaluations=evals, distinct_nontrivial=len(distinct),
                 rule="symmetric PSD matrices with distinct / repeated eigenvalues and singular (rank-deficient) ones, sizes x dtypes: eigh method orthonormal / diagonalising / ascending; QR: zero-estimate fallback, orthonormal, Rayleigh ordering, span of the orthogonal-iteration update, exact eigenbasis fixed up to signs; flags: identity / one; distinct = distinct parameter tuples",
                 samples=[dict(n=8, kind="repeated", dtype="f32", method="qr")], bound=f"sizes {sizes}", violations=viol)
@@ -136,6 +141,14 @@ def replay(r):
 
 def replay_file(doc):
     rp = doc.get("replay_input") or {}
+    if rp.get("kind") == "qr_frame":
+        from checks import mf as _mf
+        bad = _mf.native_qr_frame()
+        return bool(bad), bad or "the QR method does not write its inputs"
+    if rp.get("kind") == "eigvec":
+        bad = mf.native_qr_rule()
+        if bad:
+            return True, bad
     if rp.get("kind") == "checkdiag":
         bad = mf.native_checkdiag()
         return bool(bad), bad or "check_diagonal is exact on tiny off-diagonal entries"
